@@ -54,7 +54,7 @@ func userOf(admin bool, paths [][]string, masks []int) auth.User {
 type sample = rt.M
 
 // Run: B1 over the decision tables.  Every grant table of the universe (rank
-// order, split into rank ranges = trace files), every request resource of up to
+// order, split by rank modulo the number of parts = trace files), every request resource of up to
 // maxSegs segments over names + ".", "..", "" (absolute) plus a few relative
 // ones, every privilege; then single-carrier tables with every one of the 32
 // privilege bitmasks; auth.APIResource and auth.DatabaseResource over all short
@@ -95,7 +95,6 @@ func Run(r *rt.Run) error {
 			sem <- struct{}{}
 			defer func() { <-sem }()
 			t := po.t
-			lo, hi := (k-1)*total/b.parts, k*total/b.parts
 			t.Reset(rt.M{"part": k, "parts": b.parts, "tier": r.Tier})
 			// universe binding + the real path.Clean on every request resource
 			cl := make([]string, len(abs))
@@ -140,7 +139,7 @@ func Run(r *rt.Run) error {
 				if admin {
 					maxg = b.adminMaxGranted
 				}
-				for rank := lo; rank < hi; rank++ {
+				for rank := k - 1; rank < total; rank += b.parts {
 					codes := codesOfRank(rank, np, nopt)
 					if granted(codes) > maxg {
 						continue
